@@ -14,7 +14,8 @@ REQUIRED = ['C17.kdt_len_eq', 'C17.kdt_x_distinct_inrange', 'C17.kdt_y_inrange',
             'C17.kdt_matched_iff_wf',
             'C17.kdt_marks_greedy', 'C17.kdt_closest_claimant', 'C17.kdt_first_neighbour_matched',
             'C17.kdt_sortedpos_not_injective', 'C17.kdt_among_K_nearest',
-            'C17.kdt_K1_spec', 'C17.kdt_K1_nearest_within_bound', 'C17.kdt_nearest_clause_one_sided']
+            'C17.kdt_K1_spec', 'C17.kdt_K1_nearest_within_bound', 'C17.kdt_nearest_clause_one_sided',
+            'C17.kdt_count_le_min']
 TRUSTED = ['scipy.spatial.cKDTree(y).query(x, k=K, distance_upper_bound=b) is an oracle: its result (D, inds) is obtained from the '
            'real library on the same inputs and handed to the model exactly (distances as exact rationals, inf as a sentinel)',
            'that the entries of a query row are the K nearest points of y is scipy\'s contract; the instance check recomputes it by brute force',
